@@ -1,6 +1,7 @@
 package sio
 
 import (
+	"encoding/json"
 	"reflect"
 	"time"
 
@@ -84,8 +85,12 @@ func (w *verifSrv) nsp(name string) *Namespace {
 	return n
 }
 
-// verifNoDecode is the decode closure of a packet without usable payload (CONNECT without auth).
-func verifNoDecode(types ...reflect.Type) ([]reflect.Value, error) { return nil, nil }
+// verifNoDecode is the decode closure of a CONNECT packet without auth data: like the real decoder it hands back a
+// pointer to a json.RawMessage holding the empty object.
+func verifNoDecode(types ...reflect.Type) ([]reflect.Value, error) {
+	raw := json.RawMessage("{}")
+	return []reflect.Value{reflect.ValueOf(&raw)}, nil
+}
 
 func (w *verifSrv) countEncoded(typ parser.PacketType, nsp string) int {
 	n := 0
